@@ -2,3 +2,7 @@ chk('C20', 'exhaustive enumeration + Hypothesis vs independent calendar / two\'s
     'Every date serial (thorough; 1/4 + all boundary blocks in quick), every second, all 1024 binary values, all 4000x5 ROMAN arguments are enumerated and compared with an independent reference; octal/hex sampled with every power-of-two boundary; DATE overflow grid and random triples. Enumeration is the right level: the domains are finite and the laws are per-value.',
     'Trusts my reference calendar (datetime ordinal arithmetic + hand-patched 1900 quirk) and Python int for two\'s complement; octal/hex are sampled, not exhaustive.',
     'DESIGN.md 2/C20')
+chk('C06', 'exhaustive pair enumeration + Hypothesis multi-area search vs a cell-set model',
+    'All ordered pairs of rectangles of a 4x4 (quick) / 5x5 (thorough) grid for the four reference operators and simplify(), on Ranges objects with values and through SUM/COUNT formulas, against Python set/multiset arithmetic; Hypothesis adds multi-area operands, whole rows/columns, cross-sheet operands and grids of mixed value kinds. Exhaustive on the small grid because every relation of two rectangles (disjoint, touching, overlapping, containing, equal) already occurs there.',
+    'Trusts the cell-set reading of the four operators given in the property; reversed-corner literals (A3:A1) and a parenthesised operand next to a bare one are outside the asserted grammar.',
+    'DESIGN.md 2/C06')
